@@ -171,3 +171,43 @@ move=> reg; apply: laws_of_lists => //.
 - by move=> t; exact: SHO_id.
 - by move=> t1 t2 t3; exact: SHO_semigroup.
 Qed.
+
+(* ---- Kalman solver = quasiseparable solver for the built-in kernels: the state-space covariance the Kalman recursion
+   factorises is exactly the matrix of to_symm_qsm plus the diagonal noise ---- *)
+From TinyGP Require Import W2.QSStationary Model.GP Theory.QSMMulAbs Theory.KalmanAbs Theory.KalmanThy.
+Lemma comm_of_lists (k : sskernel R R) :
+  (forall x y, wfm (ssm k) (ssA k x y)) ->
+  (forall x y x' y', mmul (ssm k) (ssA k x y) (ssA k x' y') = mmul (ssm k) (ssA k x' y') (ssA k x y)) ->
+  forall x y x' y', @Ax Rf R k x y *m @Ax Rf R k x' y' = @Ax Rf R k x' y' *m @Ax Rf R k x y.
+Proof. by move=> wA H x y x' y'; rewrite /Ax -!mx_of_mmul // H. Qed.
+
+Theorem builtin_kalman_is_quasisep (k : sskernel R R) (x0 : R) (xs : seq R) (dg : seq R) :
+  @ss_laws Rf R k -> (forall x, @Hx Rf R k x = @Hx Rf R k x0) ->
+  (forall x y, wfm (ssm k) (ssA k x y)) ->
+  (forall x y x' y', mmul (ssm k) (ssA k x y) (ssA k x' y') = mmul (ssm k) (ssA k x' y') (ssA k x y)) ->
+  kalman_S (size xs) (ssm k) (ssP k) (kal_A k x0 xs) (kal_H k x0 xs) (dg : seq Rf)
+  = den (size xs) (to_symm_qsm rfops k x0 xs) + Dm (size xs) (fun i => nth (0 : Rf) dg i).
+Proof.
+move=> laws hc wA cm.
+have H := (@kalman_S_is_quasisep Rf sqrt Rltb R k x0 xs dg (P_sym laws) (@Hx Rf R k x0) hc (comm_of_lists wA cm)).
+exact: H.
+Qed.
+Theorem builtin_kernels_kalman (scale sigma a b c d : R) (x0 : R) (xs dg : seq R) :
+  let S k := kalman_S (size xs) (ssm k) (ssP k) (kal_A k x0 xs) (kal_H k x0 xs) (dg : seq Rf) in
+  let Q k := den (size xs) (to_symm_qsm rfops k x0 xs) + Dm (size xs) (fun i => nth (0 : Rf) dg i) in
+  [/\ S (k_Exp scale sigma) = Q (k_Exp scale sigma), S (k_Matern32 scale sigma) = Q (k_Matern32 scale sigma),
+      S (k_Matern52 scale sigma) = Q (k_Matern52 scale sigma), S (k_Cosine scale sigma) = Q (k_Cosine scale sigma) &
+      S (k_Celerite a b c d) = Q (k_Celerite a b c d)].
+Proof.
+move=> S Q; split; apply: builtin_kalman_is_quasisep => //.
+- exact: Exp_laws.
+- by move=> *; exact: exp_commute.
+- exact: Matern32_laws.
+- by move=> *; exact: m32_commute.
+- exact: Matern52_laws.
+- by move=> *; exact: m52_commute.
+- exact: Cosine_laws.
+- by move=> *; exact: cos_commute.
+- exact: Celerite_laws.
+- by move=> *; exact: cel_commute.
+Qed.
